@@ -23,8 +23,7 @@ def pair? (s : String) : Option (Int × Int) :=
   | _ => none
 
 /-- one op; returns new state and the printed result -/
-def op (s : State) (tok : String) : State × String :=
-  let blk := blkOf s.seed s.cust
+def opWith (blk : Nat → Bytes) (s : State) (tok : String) : State × String :=
   if tok == "st" then (s, toHex (store s))
   else if tok == "rs" then
     match restore? blkOf (store s) with
@@ -53,8 +52,7 @@ def op (s : State) (tok : String) : State × String :=
   else if tok.startsWith "sp" then (s, "bad-op")
   else (s, "bad-op")
 
-def op2 (s : State) (tok : String) : State × String :=
-  let blk := blkOf s.seed s.cust
+def op2With (blk : Nat → Bytes) (s : State) (tok : String) : State × String :=
   if tok.startsWith "sp" then
     match pair? (tok.drop 2).toString with
     | some (n, m) =>
@@ -79,7 +77,29 @@ def op2 (s : State) (tok : String) : State × String :=
       | (s', .err) => (s', "err")
       | (s', .stuck) => (s', "stuck")
     | none => (s, "bad-op")
-  else op s tok
+  else opWith blk s tok
+
+def op2 (s : State) (tok : String) : State × String := op2With (blkOf s.seed s.cust) s tok
+
+/-- the byte tape as a block function: block `i` is bytes `64 i .. 64 i + 63` of the tape, zeros once it is used up -/
+def tapeBlk (tape : Bytes) : Nat → Bytes := fun i =>
+  let b := (tape.drop (64 * i)).take 64
+  b ++ zeros (64 - b.length)
+
+/-- `prgtape <tape> <op>*`: the generic methods of rand.go (`u`, `p`, `sp`, `sm`, `sh`, `r`) over a caller-chosen byte
+    source (hook `random.NewTapeRand`); `st` / `rs` belong to the ChaCha20 object and are refused -/
+def runTape (args : List String) : String :=
+  match args with
+  | tape :: ops =>
+    match parseBytes? tape with
+    | some tape =>
+      if ops.any (fun t => t == "st" || t == "rs") then "bad-op" else
+      let s0 : State := { seed := zeros 32, cust := zeros 12, counter := 0, cipher := { ctr := 0, buf := [] }, ubuf := zeros 8 }
+      let (_, outs) := ops.foldl (fun (acc : State × List String) tok =>
+        let (s', o) := op2With (tapeBlk tape) acc.1 tok; (s', o :: acc.2)) (s0, [])
+      " ".intercalate ("ok" :: outs.reverse)
+    | none => "bad-op"
+  | _ => "bad-op"
 
 /-- `prg <seed> <cust> <op>*` -/
 def run (args : List String) : String :=
